@@ -37,6 +37,15 @@ def Tree.WF : Tree → Bool
   | .isqrt a => a.WF
   | .grp a => a.WF
 
+/-- the binary function nodes are `min` / `max` (the only shape `Tree.post` / `Tree.eval` give a meaning to) -/
+def Tree.FnOK : Tree → Bool
+  | .lit _ => true
+  | .var _ => true
+  | .bin _ l r => l.FnOK && r.FnOK
+  | .fn2 f a b => (f = .min || f = .max) && a.FnOK && b.FnOK
+  | .isqrt a => a.FnOK
+  | .grp a => a.FnOK
+
 def fnName : Fn → Name
   | .min => kwMin | .max => kwMax | .isqrt => kwIsqrt
 
